@@ -116,7 +116,7 @@ func (c14) Cases(tier string, seed uint64) []fw.Case {
 	n, m := tierNM(tier)
 	perFam, nGen, nPoison := 28, 90, 24
 	if tier == "thorough" {
-		perFam, nGen, nPoison = 300, 600, 60
+		perFam, nGen, nPoison = 240, 450, 60
 	}
 	r := fw.NewRng(seed ^ 0xC14)
 	var cases []fw.Case
